@@ -148,7 +148,8 @@ def keys_of(idents):
         shutil.rmtree(run, ignore_errors=True)
 
 
-def book_run(text, fmt, cache=False, rounds=1, maxprocs=0, race=False, schedule=None, timeout=120, keep_dir=None, prefile=None):
+def book_run(text, fmt, cache=False, rounds=1, maxprocs=0, race=False, schedule=None, timeout=120, keep_dir=None, prefile=None, reuse=False,
+             damage_before_last=None):
     """Builds a book from `text`; returns (dump or None, rc, stderr tail, race log)."""
     run = keep_dir or vlib.scratch("book")
     try:
@@ -165,6 +166,12 @@ def book_run(text, fmt, cache=False, rounds=1, maxprocs=0, race=False, schedule=
         args = [vlib.driver(race=race), "book-run", "-file", src, "-format", fmt, "-rounds", str(rounds), "-out", outp]
         if cache:
             args.append("-cache")
+        if reuse:
+            args.append("-reuse")
+        if damage_before_last is not None:
+            with open(os.path.join(run, "damaged.bin"), "wb") as fh:
+                fh.write(damage_before_last)
+            args += ["-damage-before-last", os.path.join(run, "damaged.bin")]
         if maxprocs:
             args += ["-maxprocs", str(maxprocs)]
         if schedule is not None:
